@@ -14,7 +14,7 @@ from ..strategies import crossing_pair, sample_cases, sim_cases
 from ._sim_common import summarize
 
 ID = "C07"
-RULE = ("Three cases in four: Hypothesis generates configurations that mix scripted agents with (traced and plain) built-in FCN, market-share FCN, "
+RULE = ("(one logger object serves all runs of a worker process, replaced after an aborted run; half of the configurations mix volatile and deterministic markets; the index entry may be listed before an unrelated market) Three cases in four: Hypothesis generates configurations that mix scripted agents with (traced and plain) built-in FCN, market-share FCN, "
         "market-maker, arbitrage and test agents, Market and IndexMarket, correlated volatile fundamentals, and the built-in "
         "events (fundamental shock, order mistake, price limit, trading halt) plus probe events, 1-3 sessions of 1-40 steps "
         "(120 thorough), and a runner seed; one case in four is one of the repository's sample configurations (CI2002, fat_finger, "
